@@ -898,7 +898,9 @@ class Driver:
             self.driver_actor.drive_at(worker, worker_start_timestamp)
 
     def may_complete_current_task(self, task_allocations):
-        any_joinpoints_completing_parent = [a for a in task_allocations if a.task.any_task_completes_parent]
+        # only clients that have actually executed one of the tasks which may complete the parent count; workers without
+        # any such task reach the join point right away and must not end the parallel structure.
+        any_joinpoints_completing_parent = [a for a in task_allocations if a.client_id in a.task.any_task_completes_parent]
         joinpoints_completing_parent = [a for a in task_allocations if a.task.preceding_task_completes_parent]
 
         # If 'completed-by' is set to 'any', then we *do* want to check for completion by
